@@ -1,9 +1,8 @@
 ------------------------------- MODULE MC_Csp -------------------------------
 (* Exhaustive cross-validation of the two definitions of satisfiability on all systems of a small bound. *)
 EXTENDS Csp
+CONSTANTS Lo, Hi
 VARIABLE sys
-Lo == -2
-Hi == 2
 VarSet == { [lo |-> a, hi |-> b, par |-> p] : a \in Lo..Hi, b \in Lo..Hi, p \in 0..2 }
 ConSet(n) == { <<i, j, c>> : i \in 1..n, j \in 1..n, c \in -2..2 }
 Systems == { [vars |-> <<v1, v2>>, cons |-> cs] : v1 \in {v \in VarSet : v.lo = Lo \/ v.hi = Hi \/ v.par = 2}, v2 \in VarSet,
